@@ -531,7 +531,8 @@ class Parallel2dGeometry(ParallelBeamGeometry):
         True
         """
         # Get transformation and translation parts from `init_matrix`
-        init_matrix = np.asarray(init_matrix, dtype=float)
+        # Copy, the parts below are views and end up in the geometry
+        init_matrix = np.array(init_matrix, dtype=float, copy=True)
         if init_matrix.shape not in ((2, 2), (2, 3)):
             raise ValueError('`matrix` must have shape (2, 2) or (2, 3), '
                              'got array with shape {}'
@@ -913,7 +914,8 @@ class Parallel3dEulerGeometry(ParallelBeamGeometry):
         array([ 0.,  2.,  1.])
         """
         # Get transformation and translation parts from `init_matrix`
-        init_matrix = np.asarray(init_matrix, dtype=float)
+        # Copy, the parts below are views and end up in the geometry
+        init_matrix = np.array(init_matrix, dtype=float, copy=True)
         if init_matrix.shape not in ((3, 3), (3, 4)):
             raise ValueError('`matrix` must have shape (3, 3) or (3, 4), '
                              'got array with shape {}'
@@ -1313,7 +1315,8 @@ class Parallel3dAxisGeometry(ParallelBeamGeometry, AxisOrientedGeometry):
         array([ 0.,  2.,  1.])
         """
         # Get transformation and translation parts from `init_matrix`
-        init_matrix = np.asarray(init_matrix, dtype=float)
+        # Copy, the parts below are views and end up in the geometry
+        init_matrix = np.array(init_matrix, dtype=float, copy=True)
         if init_matrix.shape not in ((3, 3), (3, 4)):
             raise ValueError('`matrix` must have shape (3, 3) or (3, 4), '
                              'got array with shape {}'
